@@ -26,6 +26,13 @@ def main():
     ap.add_argument("--replay")
     args = ap.parse_args()
     seed = int(os.environ.get("VERIF_SEED", "20260929"))
+    if args.prop == "setup":
+        # build the whole Coq development (full .vo build); used by MANIFEST.setup_cmd
+        from .common import make_coq
+        ok, out, secs = make_coq(timeout=3000)
+        print(out[-3000:])
+        print(f"coq build ok={ok} in {secs:.0f}s")
+        return 0 if ok else 1
     fams = all_checks()
     if args.prop not in fams:
         print(f"unknown property {args.prop}")
